@@ -15,7 +15,7 @@ from sa.flow import Analysis, Interp, WithEnter, WithExit, call_of
 from sa.analyses.base import RuleAnalysis
 
 CLAIM = {
-    "text": "Decides that on the receive path no local variable holds received-but-undelivered bytes or packets across a suspension point that can be cancelled (may-suspend/may-cancel summaries over the resolved call graph, shield table), that such a value is never killed or left behind on a cancellation/timeout exit, that a return value does not travel through a suspending `async with` exit, that a caller-owned buffer lent to the event loop is reclaimed on every exit and its await has a cancellation arm, that byte counts handed to protocol data callbacks are consumed on every path, and that the blocking twins have no timeout-raising call between a successful read and its delivery to the consumer. Because a cancellation can only land at a suspension point, the verdict covers every schedule. (parser) the half-fed packet parser kept in the stream consumers between receives is never taken out of the consumer state and then forgotten on a no-packet exit, and never re-bound while it is the only reference; (eof) no end-of-stream latch (BIO.write_eof / feed_eof / eof flags) is set in an except arm that can catch a cancellation or in a finally block. buffer_updated() withdraws a lent buffer before returning to the loop; (flow) the asyncio protocol's raw receive buffer is read only as `[:level]`, copy-out paths conserve bytes (linear forms, min() resolved by branch conditions), `x[-n:]` is reached only with n > 0 established, and the read water marks lie within the buffer. Round 4: a call that drives a reading method passed as an argument (`_retry_ssl_method(ssl_object.read, n)`) is a source of received data for the hold typestate; copy-out precedes in-place compaction. Round 5: get_buffer() hands the event loop the free tail `view[<fill level>:]` only; a read waiter is completed at most once (`done()` guard, C20.done). Round 6: clear() of the stream consumers and of the receivers built on them is only called from clear/close/aclose/__del__ methods (no reset of a half-fed parser on a timeout path).",
+    "text": "Decides that on the receive path no local variable holds received-but-undelivered bytes or packets across a suspension point that can be cancelled (may-suspend/may-cancel summaries over the resolved call graph, shield table), that such a value is never killed or left behind on a cancellation/timeout exit, that a return value does not travel through a suspending `async with` exit, that a caller-owned buffer lent to the event loop is reclaimed on every exit and its await has a cancellation arm, that byte counts handed to protocol data callbacks are consumed on every path, and that the blocking twins have no timeout-raising call between a successful read and its delivery to the consumer. Because a cancellation can only land at a suspension point, the verdict covers every schedule. (parser) the half-fed packet parser kept in the stream consumers between receives is never taken out of the consumer state and then forgotten on a no-packet exit, and never re-bound while it is the only reference; (eof) no end-of-stream latch (BIO.write_eof / feed_eof / eof flags) is set in an except arm that can catch a cancellation or in a finally block. buffer_updated() withdraws a lent buffer before returning to the loop; (flow) the asyncio protocol's raw receive buffer is read only as `[:level]`, copy-out paths conserve bytes (linear forms, min() resolved by branch conditions), `x[-n:]` is reached only with n > 0 established, and the read water marks lie within the buffer. Round 4: a call that drives a reading method passed as an argument (`_retry_ssl_method(ssl_object.read, n)`) is a source of received data for the hold typestate; copy-out precedes in-place compaction. Round 5: get_buffer() hands the event loop the free tail `view[<fill level>:]` only; a read waiter is completed at most once (`done()` guard, C20.done). Round 6: clear() of the stream consumers and of the receivers built on them is only called from clear/close/aclose/__del__ methods (no reset of a half-fed parser on a timeout path). Round 7: _maybe_pause_transport / _maybe_resume_transport decide on the fill level, water marks, paused flag and transport only - not on the presence of a reader.",
     "note": "Trusted: source/sink/shield tables (sa/analyses/hold.py, sa/summary.py); releasing a lock does not suspend; awaits that drive the user's handler generator are not library suspension points. Known findings: F4a/F4b (asyncio buffered protocol external-buffer path) and F5 (TLS _retry_ssl_method flush after a successful read) are genuine defects recorded in known_findings.json. Not decided: value-level equality of the delivered stream.",
     "technique": "may-suspend / may-cancel interprocedural summaries + hold-across-suspension typestate by abstract interpretation (ast), must-consume analysis of protocol callbacks",
 }
